@@ -543,6 +543,61 @@ fn ts_sync(role: Role, data: &[u8], buffered: bool) -> Seq {
     }
 }
 
+/// The same stream object is offered growing prefixes of the input (as a caller does that
+/// buffers what it receives): every call either yields a frame, consuming exactly its bytes, or
+/// asks for more without consuming anything and without changing what a later call decides.
+fn ts_sync_incremental(role: Role, data: &[u8], buffered: bool, rng: &mut Rng) -> Seq {
+    let mut ts = make_ts(role);
+    let mut out = Vec::new();
+    let mut consumed = 0usize;
+    // stage ends: a few random prefix lengths (possibly repeated, possibly 0), then everything
+    let mut stages: Vec<usize> = (0..rng.usize(1, 4)).map(|_| rng.usize(0, data.len())).collect();
+    stages.sort();
+    stages.push(data.len());
+    for end in stages {
+        loop {
+            let avail = &data[consumed..end.max(consumed)];
+            let (r, used) = if buffered {
+                let mut br = BufferReader::new(avail);
+                let r = match &mut ts {
+                    Ts::BiRemote(t) => t.read_frame_from_buffer(&mut br),
+                    Ts::BiLocal(t) => t.read_frame_from_buffer(&mut br),
+                    Ts::Uni(t) => t.read_frame_from_buffer(&mut br),
+                    Ts::Session(t) => t.read_frame_from_buffer(&mut br),
+                };
+                (r.map(|o| o.map(|f| show_frame(&f))), br.offset())
+            } else {
+                let mut sl: &[u8] = avail;
+                let r = match &mut ts {
+                    Ts::BiRemote(t) => t.read_frame(&mut sl),
+                    Ts::BiLocal(t) => t.read_frame(&mut sl),
+                    Ts::Uni(t) => t.read_frame(&mut sl),
+                    Ts::Session(t) => t.read_frame(&mut sl),
+                };
+                (r.map(|o| o.map(|f| show_frame(&f))), avail.len() - sl.len())
+            };
+            match r {
+                Ok(Some(f)) => {
+                    out.push(f);
+                    consumed += used;
+                }
+                Ok(None) => {
+                    // the buffered reader commits only what was parsed in full (a skipped unknown
+                    // frame may be consumed, an incomplete frame never); the slice reader is
+                    // documented to leave its argument partially read, so the caller offers the
+                    // same bytes again
+                    if buffered {
+                        consumed += used;
+                    }
+                    break;
+                }
+                Err(c) => return (out, code_name(c)),
+            }
+        }
+    }
+    (out, "need-more".into())
+}
+
 fn ts_async(role: Role, data: &[u8], rng: &mut Rng) -> Seq {
     use wtransport_proto::stream::IoReadError;
     let mut ts = make_ts(role);
@@ -635,7 +690,21 @@ pub fn exec_ts(p: &TsPlan, _trace: bool) -> Exec {
         "end-inside-frame" => format!("H3:{:#x}", rc::H3_FRAME_ERROR),
         t => t.to_string(),
     };
-    for (name, got, term) in [("read_frame", &a, &sync_terminal), ("read_frame_from_buffer", &b, &sync_terminal), ("read_frame_async", &c, &async_terminal)] {
+    let inc = std::panic::catch_unwind(std::panic::AssertUnwindSafe(|| (ts_sync_incremental(p.role, data, false, &mut rng), ts_sync_incremental(p.role, data, true, &mut rng))));
+    let (d, e) = match inc {
+        Ok(x) => x,
+        Err(_) => {
+            ex.violation("C15/panic", format!("typestate {:?} panicked on {:?} (growing prefixes)", p.role, p.items));
+            return ex;
+        }
+    };
+    for (name, got, term) in [
+        ("read_frame", &a, &sync_terminal),
+        ("read_frame_from_buffer", &b, &sync_terminal),
+        ("read_frame_async", &c, &async_terminal),
+        ("read_frame over growing prefixes on one stream object", &d, &sync_terminal),
+        ("read_frame_from_buffer over growing prefixes on one stream object", &e, &sync_terminal),
+    ] {
         if got.0 != want {
             ex.violation(
                 "C15/typestate-frames",
